@@ -56,6 +56,13 @@ class RandomSource(abc.ABC):
     ) -> T:
         acc_weights: list[int] = [int(x * 100000) for x in accumulate(weights)]
         total = acc_weights[-1]
+        if total == 0 and max(weights) > 0:
+            # every weight is below the resolution above (only the ratios mean anything: 0 : 1e-7 next to a production the
+            # depth heuristic has ruled out): the walk below fell through to the first option, whatever its weight.
+            # The same walk over the weights relative to the largest one.
+            top = max(weights)
+            acc_weights = [int(x * 100000) for x in accumulate(w / top for w in weights)]
+            total = acc_weights[-1]
         rand_value: float = self.randint(0, max(total - 1, 0))
 
         for choice, acc in zip(choices, acc_weights):
